@@ -102,13 +102,13 @@ def _eval_mode(ctx, case):
         warnings.simplefilter("always")
         try:
             g = GroFile(path, mode)
-            impl = ("O", g._file.mode, any(issubclass(w.category, RuntimeWarning) for w in ws),
-                    g._natoms is not None, "w" in g._file.mode)
+            impl = ("O", G.gfile(g).mode, any(issubclass(w.category, RuntimeWarning) for w in ws),
+                    G.priv(g, "_natoms") not in (None, G.MISSING), "w" in G.gfile(g).mode)
         except Exception as e:   # noqa: BLE001
             impl = ("E", _exc(e))
     after = G.read_bytes(path) if os.path.exists(path) else None
     if g is not None:
-        g._file.close()
+        G.gfile(g).close()
     ctx.count("open-mode:" + (impl[1] if impl[0] == "E" else "opened-" + impl[1] + ("-warned" if impl[2] else "")))
     ctx.case(case, nontrivial=True, sample=case)
     # oracle: a mode that ends up reading leaves the file alone
@@ -214,7 +214,7 @@ def _eval_dispatch(ctx, case):
                     ctx.oracle_ok(1)
                     if p.name != path:
                         ctx.oracle_fail("open:name-is-not-the-file-name", case, {"name": p.name, "path": path})
-                    p._file.close()
+                    G.gfile(p).close()
                 else:
                     # the defaults of the abstract base class, reached through super()
                     with p:
@@ -358,7 +358,7 @@ def _eval_wsession(ctx, case):
             impl.append(r)
             ctx.count("wsession:" + op[0] + ":" + (r[1] if r[0] == "E" else "ok") if op[0] in ("gn", "gp", "gc", "k", "nm") else "wsession:base")
         try:
-            g._file.close()
+            G.gfile(g).close()
         except Exception:   # noqa: BLE001
             pass
     data = G.read_bytes(path)
